@@ -86,6 +86,16 @@ func (c *VC) ghostBuiltin(st *State, name string, call *ast.CallExpr) []*Term {
 		a := c.evalCond(st, call.Args[0])
 		b := c.evalCond(st, call.Args[1])
 		return []*Term{mkEq(a, b)}
+	case "viewOf":
+		// b's current content is exactly s[p : p+len(b)] (b was obtained by converting s and re-slicing)
+		b := c.eval(st, call.Args[0])
+		sv := c.eval(st, call.Args[1])
+		p := c.eval(st, call.Args[2])
+		_, h := c.sliceHeap(st, c.byteSort())
+		return []*Term{mkAnd(mkEq(c.sel(h, mkField(b, "sl_base")), mkField(sv, "st_arr")),
+			mkEq(mkField(b, "sl_off"), c.binop(token.ADD, mkField(sv, "st_off"), p, it)),
+			c.cmp(token.LEQ, c.idxLit(0), p, it),
+			c.cmp(token.LEQ, c.binop(token.ADD, p, mkField(b, "sl_len"), it), mkField(sv, "st_len"), it))}
 	case "suffixOf":
 		// a is a suffix of b: same backing array, same end, starts no earlier
 		a := c.eval(st, call.Args[0])
